@@ -324,7 +324,39 @@ pub fn project(env: &Env) -> Map<String, Value> {
             );
         }
     }
+    // Drift users (the banks' claims on that venue) go into the same section: amount = scaled balance of the bank's position
+    for (k, a) in env.world.accts.iter() {
+        use drift_mocks::state::{MinimalUser, USER_DISCRIMINATOR};
+        let sz = std::mem::size_of::<MinimalUser>();
+        if a.owner == marginfi::constants::DRIFT_PROGRAM_ID && a.data.len() >= 8 + sz && a.data[..8] == USER_DISCRIMINATOR {
+            let u: MinimalUser = bytemuck::pod_read_unaligned(&a.data[8..8 + sz]);
+            let p1 = &u.spot_positions[1];
+            let p0 = &u.spot_positions[0];
+            let (amt, idx) = if p1.market_index != 0 || p1.scaled_balance > 0 { (p1.scaled_balance, p1.market_index) } else { (p0.scaled_balance, p0.market_index) };
+            let others: u128 = u.spot_positions.iter().skip(2).map(|d| d.scaled_balance as u128).sum();
+            obls.insert(
+                env.names.name(k),
+                json!({"owner": env.names.name(&u.authority), "reserve": format!("market#{}", idx), "amount": big_u(amt as u128), "other_deposits": big_u(others)}),
+            );
+        }
+    }
     m.insert("obligations".into(), Value::Object(obls));
+    let mut markets = Map::new();
+    for (n, mi) in env.markets.iter() {
+        use drift_mocks::state::MinimalSpotMarket;
+        if let Some(a) = env.world.get(&mi.market) {
+            let sz = std::mem::size_of::<MinimalSpotMarket>();
+            if a.data.len() >= 8 + sz {
+                let r: MinimalSpotMarket = bytemuck::pod_read_unaligned(&a.data[8..8 + sz]);
+                markets.insert(
+                    n.clone(),
+                    json!({"mint": mi.mint_name, "dec": r.decimals, "cum": big_u(u128::from_le_bytes(r.cumulative_deposit_interest)), "ts": big_u(r.last_interest_ts as u128),
+                           "index": r.market_index, "vault": env.names.name(&mi.vault), "owner_ok": a.owner == marginfi::constants::DRIFT_PROGRAM_ID}),
+                );
+            }
+        }
+    }
+    m.insert("markets".into(), Value::Object(markets));
     let mut mints = Map::new();
     for (n, mi) in env.mints.iter() {
         mints.insert(
